@@ -245,9 +245,12 @@ def _worker(args):
         return ("harness", f"{type(e).__name__}: {e}\n{traceback.format_exc()}")
 
 
+SHARD_ERRORS = []
+
+
 def pool_map(fn, arglist, nproc=None):
     """Run fn(*args) for every args in arglist on the worker pool; results in
-    order.  A worker exception is a harness error."""
+    order.  A worker exception is a harness error (deferred, see SHARD_ERRORS)."""
     arglist = list(arglist)
     nproc = min(nproc or NPROC, max(1, len(arglist)))
     if nproc == 1 or os.environ.get("VERIF_SERIAL"):
@@ -259,7 +262,10 @@ def pool_map(fn, arglist, nproc=None):
     res = []
     for kind, val in outs:
         if kind != "ok":
-            raise HarnessError(val)
+            # deferred: run_check exits 2 for these unless other shards found
+            # (oracle-confirmed) violations, which are then still reported
+            SHARD_ERRORS.append(val)
+            continue
         res.append(val)
     return res
 
